@@ -359,6 +359,13 @@ func genC07(r *rand.Rand, rg *c07Rig, id string, thorough bool) *c07Req {
 	}
 	if q.Route == -2 {
 		sc = &rawhttp.Script{Upgrade: true}
+		if r.Intn(5) == 0 {
+			// the upstream refuses the upgrade with an ordinary response: it reaches the client whole
+			body := make([]byte, 200+r.Intn(6000))
+			r.Read(body)
+			sc = &rawhttp.Script{Status: choose(r, []int{401, 403, 404, 426, 400}), Framing: "length", Body: body,
+				Headers: []rawhttp.Header{{Name: "Content-Type", Value: "application/octet-stream"}, {Name: "X-Up", Value: id}}}
+		}
 	}
 	q.Script = sc
 	return q
@@ -563,6 +570,13 @@ func c07One(c *ctx, which string, rg *c07Rig, q *c07Req, unrouted *atomic.Int64)
 	}
 	if got == nil {
 		viol(which, "request-not-forwarded", fmt.Sprintf("the upstream never saw the request (client got status %d)", resp.Status))
+		return
+	}
+	if which == "c07" && q.Route == -2 && q.Script.Status != 0 {
+		sc := q.Script
+		if resp.Err != nil || resp.Status != sc.Status || !bytes.Equal(resp.Body, sc.Body) {
+			viol("c07", "refused-upgrade-altered", fmt.Sprintf("the upstream refused the websocket upgrade with status %d and %d body bytes; the client got status %d and %d bytes (err %v)", sc.Status, len(sc.Body), resp.Status, len(resp.Body), resp.Err))
+		}
 		return
 	}
 	peer := q.Local
